@@ -670,6 +670,10 @@ func run(c *vlib.Ctx) error {
 		for i, m := 0, argInt(c, "docker", 6); i < m; i++ {
 			dockerCase(c, subSeed(c.Seed, 3_000_000+i), -1)
 		}
+		// scripted Docker histories (every family x every order of the four scan kinds): a seeded slice in quick
+		for i, m, n := 0, argInt(c, "dockerperm", 16), dockerScriptedCount(); i < m && i < n; i++ {
+			dockerCase(c, dockerScriptedSeed((((int(c.Seed)*37+i*7)%n)+n)%n), -1)
+		}
 		// growth: the same statement on the real local endpoint in recursive-watch mode
 		for i, m := 0, argInt(c, "endpoints", 8); i < m; i++ {
 			endpointCase(c, subSeed(c.Seed, 2_000_000+i), -1)
@@ -678,6 +682,10 @@ func run(c *vlib.Ctx) error {
 		// extra run of C15: only the Docker-syntax histories (accelerated = cold; C15's own check ties cold to moby)
 		for i, m := 0, argInt(c, "docker", 30); i < m; i++ {
 			dockerCase(c, subSeed(c.Seed, 3_000_000+i), -1)
+		}
+		// every family x every order of (warm, none, elsewhere, inside), complete tree, no edits
+		for i, m, n := 0, argInt(c, "dockerperm", 96), dockerScriptedCount(); i < m && i < n; i++ {
+			dockerCase(c, dockerScriptedSeed(i), -1)
 		}
 	default:
 		return fmt.Errorf("scan driver does not know property %s", c.Prop)
